@@ -1217,7 +1217,8 @@ def explore(ctx, rep, rng, tier):
         combos = [(a, o, v) for a in ("arc", "arc.7z") for o in (True, False) for v in (False, True)]
         if tier == "quick":     # every option value occurs with every tree; pairs rotate with the tree
             pick = [(0, 7), (1, 6), (2, 5), (3, 4)][ti % 4]
-            combos = [c for i, c in enumerate(combos) if i in pick or (has_link(spec) and not c[1] and i % 2 == ti % 2)]
+            extra = [i for i, c in enumerate(combos) if has_link(spec) and not c[1] and i not in pick][ti % 2: ti % 2 + 1]
+            combos = [c for i, c in enumerate(combos) if i in pick or i in extra]
         for a, o, v in combos:
             jobs.append(("roundtrip", {"tree": spec, "tname": tname, "arcname": a, "odir": o, "verbose": v, "seed": ctx["seed"] + ti}))
     two = [["f", "p.txt", 40, "text", 0o644], ["f", "q.bin", 900, "random", 0o644]]
@@ -1231,16 +1232,18 @@ def explore(ctx, rep, rng, tier):
         ("one-file-first/dir-two-files", one, two, ["top2"]),
         ("multi-file-first/dir-with-empty-dir-between", two, mixed, ["top2"]),
     ]:
+        if tier == "quick" and shape in ("multi-file-first/dir-one-file", "one-file-first/one-file"):
+            continue
         jobs.append(("append", {"tree1": t1, "tree2": t2, "append": what, "shape": shape, "seed": ctx["seed"]}))
     vol_tree = [["f", "r.bin", 9000, "random", 0o644], ["f", "t.txt", 3000, "text", 0o644], ["d", "e"]]
-    sizes = ["2k", "2K", "3000b", "4096B", "1m", "1g", "1G", "4096", "10000", "2P", "1kb", "700b"]
+    sizes = ["2k", "4096B", "1g", "4096", "700", "2P", "700b"]
     if tier != "quick":
-        sizes += ["1k", "1M", "512b", "100000", "0x10", "12 k"]
+        sizes += ["2K", "3000b", "1m", "1G", "10000", "1kb", "1k", "1M", "512b", "100000", "0x10", "12 k", "0012k", "5000"]
     for s in sizes:
         jobs.append(("volume", {"tree": vol_tree, "size": s, "seed": ctx["seed"]}))
     jobs.append(("volume", {"tree": [["f", "r.bin", 1500, "random", 0o644]], "size": "1b", "seed": ctx["seed"]}))
     # damaged archives
-    chains = ["copy", "lzma2", "deflate", "bzip2"] + ([] if tier == "quick" else ["zstd", "lzma", "ppmd", "delta+lzma2", "x86+lzma2", "brotli"])
+    chains = ["copy", "lzma2", "deflate"] + ([] if tier == "quick" else ["bzip2", "zstd", "lzma", "ppmd", "delta+lzma2", "x86+lzma2", "brotli"])
     for ch in chains:
         for encoded in ((True,) if (tier == "quick" or ch not in ("copy", "lzma2")) else (True, False)):
             p = {"archive": "chain", "chain": ch, "encoded": encoded, "seed": ctx["seed"]}
@@ -1257,13 +1260,15 @@ def explore(ctx, rep, rng, tier):
         step = 5 if tier == "quick" else 1
         p["variants"] = [["same"]] + [["flip", q, rng.randrange(8)] for q in range(32, hdr_start, step * 8)] + [["trunc", hdr_start - 3]]
         jobs.append(("damage", p))
-    for nm in ("lz4.7z", "lzma_bcj2_1.7z", "lzma2bcj2.7z", "crc_corrupted.7z", "data_corrupted.7z", "encrypted_1.7z", "encrypted_3.7z",
-               "filename_encryption.7z"):
+    fixtures = ["lz4.7z", "lzma_bcj2_1.7z", "crc_corrupted.7z", "encrypted_3.7z"]
+    if tier != "quick":
+        fixtures += ["lzma2bcj2.7z", "data_corrupted.7z", "encrypted_1.7z", "filename_encryption.7z"]
+    for nm in fixtures:
         jobs.append(("special", {"name": "fixture:" + nm}))
-    for ch in ("lzma2+aes", "copy+aes"):
+    for ch in (("lzma2+aes",) if tier == "quick" else ("lzma2+aes", "copy+aes")):
         jobs.append(("special", {"name": "encrypted", "chain": ch}))
         jobs.append(("special", {"name": "encrypted-header", "chain": ch, "must_fail": "txl"}))
-    for nm in ("not-7z", "missing", "empty-file", "signature-only"):
+    for nm in (("not-7z", "missing", "signature-only") if tier == "quick" else ("not-7z", "missing", "empty-file", "signature-only")):
         jobs.append(("special", {"name": nm, "must_fail": "txl"}))
     jobs.append(("special", {"name": "no-streams", "names": ["dir1/", "dir2/sub/"], "expect_ok": True}))
     jobs.append(("special", {"name": "fixture:test_folder.7z", "expect_ok": True}))
